@@ -2,6 +2,11 @@
 """write the one-line 'what it needs in order to manifest' (needs_short) into seeded/*/meta.json; creates meta.json from confirm.json if missing"""
 import json, os
 NEEDS = {
+ "C30-m2m-keyswitch-shared-assoc-row": "many-to-many with passive_updates=False whose parent has a natural primary key that is changed while two or more unchanged children are in the collection",
+ "C31-m2m-per-state-childdelete-order": "many-to-many without reverse side on a mapper that is in a unit-of-work cycle; a member removed from the collection and deleted in the same flush; immediate FK checks",
+ "C33-released-savepoint-drops-dirty": "two SAVEPOINT levels: persistent object changed and flushed in the inner one, inner released, outer rolled back with the root transaction alive, object not touched in between",
+ "C36-expire-attrs-keeps-committed-state": "del obj.relationship_attr, then Session.expire(obj, [that attr]) before the next flush or history inspection",
+ "C39-expunge-cascade-skips-deleted-state": "child deleted and flushed (transaction open) while still in the parent's loaded collection, expunge(parent) with expunge cascade, then rollback",
  "C37-pending-append-keeps-removal": "autoflush off; set/dict collection left unloaded (after commit); a member removed and re-added from the other side of the backref with no flush in between; first read of the collection",
  "C39-replaced-pending-orphan-no-expunge-cascade": "scalar delete-orphan reference (one-to-one / single_parent many-to-one) whose still-pending value owns further pending objects, replaced before any flush",
  "C45-merge-autoflush-only-when-new": "merge() into an autoflush session that holds an unflushed delete or primary-key change for the merged identity (or a cascaded member) and no pending new object at all",
